@@ -688,7 +688,7 @@ Qed.
 (* corpus/C15/known-session-counter.json *)
 Definition kf_attr : attrs :=
   {| a_tok := 100; a_lp := None; a_segs := Some [(2, 1)]; a_origin := Some 0; a_clen := None;
-     a_oid := None; a_llgr := false; a_nollgr := false; a_mm := None |}.
+     a_oid := None; a_llgr := false; a_nollgr := false; a_mm := None; a_orig := 100 |}.
 Definition kf_ops : list op :=
   [ Insert (ex_src 1 1 9 0) 1 0 (Some 1) kf_attr false false (Some (5, 1));
     Restale false 1;
